@@ -212,4 +212,15 @@ var props = map[string]*Prop{
 			{Name: "adversarial-families", Pkg: "pkg/diff", Test: "TestVerifC17", Shards: sh(8, 8), TimeoutS: sh(1800, 3600), DeadlineS: sh(900, 3000)},
 		},
 	},
+	"C13": {
+		Level: "model_checking",
+		Rule: "the provider is a scripted transport whose reply to EVERY request is a choice point: 32-letter alphabet (healthy; unsafe/LIE/SUSPICIOUS; lower-case, ERROR, preserved, empty, unknown verdicts; forbidden phrases; fenced, decorated, capitalised-key and duplicate-key JSON; plain text; two JSON values; object followed by garbage; truncated JSON; non-JSON body; wrong role, empty items, assistant item without content / with a number, item without role; body over 5MB; HTTP 400/401/429/500/503-with-good-body; dropped connection; body read error); the explorer enumerates every sequence across the sentinel call, the main call and all retries with <=2 non-default answers (quick) or the whole tree (thorough); oracle: CallLLM returns MATCH/preserved without error (= RunAudit exit 0) only if the final sentinel answer is well-formed safe:true AND the final main answer is a well-formed object with verdict exactly MATCH and clean evidence; every request's payload carries the BEGIN/END markers of its nonce exactly once, one JSON value between them, whose commit message equals the (truncated, UTF-8-sanitised) message. A second unit sends 14 hostile commit messages. A third unit runs the built `sfw audit` against a local server once per final-verdict class and checks the exit status. states = distinct (verdict, error) outcomes, transitions = provider replies, traces = executions of the real CallLLM.",
+		Assumptions: []string{"duplicate-key answers are exercised and reported but not judged", "the remote model itself is outside: the check stops at the HTTP boundary"},
+		Bounds:      map[string]string{"quick": "<=2 non-default provider answers per audit", "thorough": "the whole response tree (all retries of both calls)"},
+		Units: []Unit{
+			{Name: "provider-response-sequences", Pkg: "internal/llm", Test: "TestVerifC13", Shards: sh(16, 16), GoMaxProcs: 2, TimeoutS: sh(1800, 3600), DeadlineS: sh(600, 1500)},
+			{Name: "commit-message-envelope", Pkg: "internal/llm", Test: "TestVerifC13Messages", Shards: sh(2, 2)},
+			{Name: "audit-exit-status", Pkg: "internal/llm", Test: "TestVerifC13CLI", Shards: sh(8, 8), Builds: []Build{{Pkg: "cmd/sfw", Out: "sfw"}}},
+		},
+	},
 }
